@@ -18,7 +18,8 @@ RULE = ("typestate on data_half_used (H) by value numbering with gen_entropy kep
 EXPLANATION = ("Decides the half bookkeeping exactly; the quantifier over timer sequences is vacuous for these rules because timer values never "
                "influence H. One known finding (fill_bytes of 1..=4 bytes consumes a pending half by design) is listed in known_findings.json.")
 
-GEN = "rand_jitter::JitterRng::<F>::gen_entropy"
+from .jroles import roles as jitter_roles, find_field
+GEN = "rand_jitter::JitterRng::<F>::gen_entropy"  # today's name; run() replaces it by the function playing that role
 KNOWN_KEY = "C16.R7|rand_jitter::JitterRng<F>::fill_bytes|fill_bytes_via_next tail 1..=4 -> next_u32 with a pending half|no fresh collection"
 
 
@@ -65,10 +66,12 @@ def sym_jitter(ev, st, g):
 
 
 def run(chk, tier):
+    global GEN
     crate = Crate("rand_jitter")
     chk.config(crate.config)
     g = Gen(crate, "JitterRng")
-    iD = field_index(g.adt, "data")
+    GEN = jitter_roles(crate)["gen_entropy"]
+    iD = find_field(g.adt, "data", "u64")
     try:
         iH = field_index(g.adt, "data_half_used")
     except Anchor:
@@ -213,7 +216,7 @@ def rounds_loop(chk, crate, g):
     ev.unroll_limit = 100
     st = State()
     ref, oid, v = sym_jitter(ev, st, g)
-    rounds = v.fields[field_index(adt, "rounds")]
+    rounds = v.fields[find_field(adt, "rounds", "u8")]
     ev.call_body(st, genkey, [ref])
     chk.body(genkey)
     recs = [r for r in ev.loops_log if r.body == genkey]
